@@ -71,6 +71,10 @@ class ExprMixin:
             if kind == 'module':
                 return SModule(val)
             if kind == 'external':
+                if val == 'xml.etree.ElementTree.Element':
+                    return SCls('Element')
+                if val in ('xml.etree.ElementTree', 'itertools', 'warnings', 'copy', 'logging', 'sys', 'argparse'):
+                    return SModule(val)
                 return SFunc(None, builtin=val)
             if kind == 'assign' and isinstance(val, ast.Call) and isinstance(val.func, ast.Name) \
                     and val.func.id == 'object' and not val.args:
@@ -775,6 +779,8 @@ class ExprMixin:
             return SDict(sym=tuple(sub(a) for a in v.sym))
         if isinstance(v, (SCls, SFunc, SModule)):
             return v
+        if isinstance(v, SSymCls):
+            return SSymCls(sub(v.t))
         if isinstance(v, SIte):
             return SIte(sub(v.cond), self.subst_value(v.a, k, kk, s_from, s_to), self.subst_value(v.b, k, kk, s_from, s_to))
         raise ToolLimit('cannot re-instantiate %r' % (v,))
